@@ -129,10 +129,15 @@ fn wellformed(rng: &mut Rng, big: bool) -> Vec<u8> {
     }
     let mut others = vec![];
     for _ in 0..nvt {
-        others.push(format!("vt {} {}", literal(rng), literal(rng)));
+        others.push(format!("vt{}{}{}{}", ws(rng), literal(rng), ws(rng), literal(rng)));
     }
     for _ in 0..nvn {
-        others.push(format!("vn {} {} {}", literal(rng), literal(rng), literal(rng)));
+        // (normals need not be unit vectors; the zero vector and vanishing ones are legal text too)
+        others.push(match rng.below(8) {
+            0 => "vn 0 0 0".to_string(),
+            1 => format!("vn{}1e-9 0 -1e-9", ws(rng)),
+            _ => format!("vn{}{}{}{}{}{}", ws(rng), literal(rng), ws(rng), literal(rng), ws(rng), literal(rng)),
+        });
     }
     // layout: vertices first, faces first, or interleaved at random
     match rng.below(3) {
